@@ -25,6 +25,8 @@ class Pipe:
         self.rng = rng
         self.reader_closed = False
         self.frames_written = []
+        self.cut_hit = False         # the connection broke at cut_at (as opposed to an orderly close)
+        self.reset = False           # a socket reader sees the break as ECONNRESET instead of end of file
 
     # writer side (file-like)
     def write(self, data):
@@ -36,19 +38,19 @@ class Pipe:
             room = self.cut_at - self.total_written
             if room <= 0:
                 self.total_written += len(data)
-                self.closed = True
+                self.closed = self.cut_hit = True
                 self.sc.yield_point("write", self.name)
                 return
             if len(data) > room:
                 self.buf += data[:room]
                 self.total_written += len(data)
-                self.closed = True   # the connection breaks exactly here
+                self.closed = self.cut_hit = True   # the connection breaks exactly here
                 self.sc.yield_point("write", self.name)
                 return
         self.buf += data
         self.total_written += len(data)
         if self.cut_at is not None and self.total_written >= self.cut_at:
-            self.closed = True
+            self.closed = self.cut_hit = True
         self.sc.yield_point("write", self.name)
 
     def flush(self):
@@ -110,7 +112,11 @@ class _Sock:
         pass
 
     def recv(self, n):
-        return self.i.read(n)
+        r = self.i.read(n)
+        if not r and self.i.reset and self.i.cut_hit:
+            # the peer died with unread input: the kernel answers with RST, recv() raises instead of returning b""
+            raise ConnectionResetError(104, "Connection reset by peer")
+        return r
 
     def sendall(self, data):
         self.o.write(data)
@@ -147,8 +153,10 @@ class Pair:
         self.em_w = S.SchedExecModel(sc, remote_backend)
         self.i2w = Pipe(sc, "i2w", random.Random(rng.random()) if chunked else None)
         self.w2i = Pipe(sc, "w2i", random.Random(rng.random()) if chunked else None, cut_at=cut_w2i)
-        if io_kind == "socket":
+        if io_kind in ("socket", "socket_rst"):
             from execnet.gateway_socket import SocketIO
+
+            self.w2i.reset = io_kind == "socket_rst"
 
             self.io_i = SocketIO(_Sock(self.i2w, self.w2i), self.em_i)
             self.io_w = SocketIO(_Sock(self.w2i, self.i2w), self.em_w)
